@@ -1,6 +1,7 @@
 package wgen
 
 import (
+	"fmt"
 	"strings"
 
 	"verif/internal/run"
@@ -549,4 +550,71 @@ func ShadowEdit(m *Module, r interface{ Intn(int) int }, maxPerFunc int) (undo f
 			*saved[i].p = saved[i].v
 		}
 	}, n
+}
+
+// ReuseLocalNames renames the var / let / const locals of every function so that names are reused wherever WGSL
+// scoping allows it: the k-th live local of a function is called n<k>, a name becomes free again when the compound
+// statement that declared it ends, and every function starts from n0. Sibling scopes, consecutive loops and different
+// functions therefore declare the same names for unrelated variables of unrelated types - meaning-neutral (no local
+// is ever live together with another of the same name), but hostile to symbol tables that are not scoped or not reset.
+func ReuseLocalNames(m *Module) int {
+	n := 0
+	var list func(ss []Stmt, live int) int
+	var one func(s Stmt, live int) int
+	name := func(v *Var, live int) {
+		if v.Alias == nil {
+			v.Name = fmt.Sprintf("n%d", live)
+			n++
+		}
+	}
+	one = func(s Stmt, live int) int {
+		switch s := s.(type) {
+		case *VarDecl:
+			name(s.V, live)
+			return live + 1
+		case *If:
+			list(s.Then, live)
+			list(s.Else, live)
+		case *Switch:
+			for i := range s.Cases {
+				list(s.Cases[i].Body, live)
+			}
+		case *Loop:
+			l2 := list(s.Body, live)
+			list(s.Continuing, l2) // the continuing block sees the body's declarations
+		case *For:
+			l2 := live
+			if s.Init != nil {
+				l2 = one(s.Init, live)
+			}
+			list(s.Body, l2)
+		case *While:
+			list(s.Body, live)
+		case *Block:
+			list(s.Body, live)
+		}
+		return live
+	}
+	list = func(ss []Stmt, live int) int {
+		for _, s := range ss {
+			live = one(s, live)
+		}
+		return live
+	}
+	for i := range m.Decls {
+		if f := m.Decls[i].Func; f != nil {
+			list(f.Body, 0)
+			// read-only views of a variable (loop counters inside their body) carry a copy of its name
+			WalkStmts(f.Body, func(Stmt) {}, func(e Expr) {
+				if r, ok := e.(*Ref); ok && r.V.Alias != nil {
+					root := r.V.Alias
+					for root.Alias != nil {
+						root = root.Alias
+					}
+					r.V.Name = root.Name
+				}
+			})
+		}
+	}
+	return n
 }
